@@ -87,6 +87,7 @@ fn run_case(case: &Case) -> Run {
         }
     };
     let mut next = 0usize;
+    let mut compactor = None;
     let mut pending: Vec<String> = Vec::new(); // accepted, not yet confirmed
     for op in &case.workload {
         match op {
@@ -121,9 +122,13 @@ fn run_case(case: &Case) -> Run {
             }
             'C' => {
                 store.set_actor("compact");
-                let mm = ManifestManager::new(store.clone(), PREFIX);
-                let ccfg = CompactionConfig { target_segment_size: 1 << 20, max_segments: 2, min_segments_to_compact: 2, max_segments_per_compaction: 10, tombstone_ttl: Duration::from_secs(3600), compression_enabled: false };
-                let mut c = Compactor::with_time_source(Arc::new(store.clone()), PREFIX.to_string(), mm, ccfg, VerifTime::new(5_000));
+                // ONE compactor for the whole run, as the compaction worker keeps it between its ticks
+                // (whatever it remembers from a failed pass is there at the next one)
+                let c = compactor.get_or_insert_with(|| {
+                    let mm = ManifestManager::new(store.clone(), PREFIX);
+                    let ccfg = CompactionConfig { target_segment_size: 1 << 20, max_segments: 2, min_segments_to_compact: 2, max_segments_per_compaction: 10, tombstone_ttl: Duration::from_secs(3600), compression_enabled: false };
+                    Compactor::with_time_source(Arc::new(store.clone()), PREFIX.to_string(), mm, ccfg, VerifTime::new(5_000))
+                });
                 let _ = block_on(c.compact());
             }
             _ => unreachable!(),
